@@ -14,10 +14,10 @@ import numpy as np
 from bounded.api import close, quiet
 
 BUDGET = {"quick": 60.0, "thorough": 840.0}
-BOUND = ("d=2, domains [0,1]^2 and [-0.5,1.5]^2; dimension-wise (GlobalTrapezoidalGrid boundary on/off, versions {6,2,3,7,8}, rebalancing on/off, margin in {0.9,0.5,0.7,0.99}, lmax in {2,3}) "
+BOUND = ("d=2, domains [0,1]^2 and [-0.5,1.5]^2; dimension-wise (GlobalTrapezoidalGrid boundary on/off, versions {6,2,3,7,8}, rebalancing on/off, margin in {0.9,0.5,0.7,0.99}, use_volume_weighting on/off (on: two components of magnitude 1:100..1000), lmax in {2,3}) "
          "and extend-split (TrapezoidalGrid with boundary, versions {0,1,2}, refinements-before-extend {1,2,3}, automatic_extend_split, split_single_dim); "
          "integrands Genz family + random smooth, scalar and 2-component; uninterrupted runs with <=8 evaluations (final limit: max_evaluations, "
-         "or a tolerance with reference solution + max_evaluations); every interruption index j (stop by max_evaluations=n_j-1; additionally, dimension-wise only, one stop by a "
+         "or a tolerance with reference solution + max_evaluations); every interruption index j incl. the last one (stop by max_evaluations=n_j-1; last index: first limit n_(k-1), final limit n_k-1, i.e. already exceeded at the stop; additionally, dimension-wise only, one stop by a "
          "larger tolerance with a tolerance-decided final stop); save/restore round trip through dill at up to 3 (quick: 2) interruption indices per configuration, 7 random probe points")
 RULE = BOUND + "; a case is one (configuration, integrand, final limits, interruption limits, with/without save+restore); non-trivial = interruption strictly before the final stop and at least one refinement in the uninterrupted run"
 CLAUSES = {
@@ -199,6 +199,9 @@ def gen_configs(ctx, n):
             cfg["opts"] = {"version": [6, 2, 3, 7, 8][k % 5], "rebalancing": k % 4 != 3}
             if k % 2 == 1:
                 cfg["opts"]["margin"] = [0.5, 0.99, 0.7][k % 3]
+            if k % 4 == 2:
+                cfg["opts"]["use_volume_weighting"] = True
+                cfg["norm"] = rng.choice([1, 2])
         else:
             cfg["grid"] = {"type": "Trapezoidal", "boundary": True}
             cfg["opts"] = {"version": [0, 0, 1, 2][k % 4], "number_of_refinements_before_extend": [1, 2, 3][k % 3]}
@@ -208,6 +211,15 @@ def gen_configs(ctx, n):
                 cfg["opts"]["split_single_dim"] = True
         out.append(cfg)
     return out
+
+
+def anchor_configs():
+    """Fixed configurations that go through the full pipeline (all interruption indices) first: the documented option use_volume_weighting
+    with two quantities of interest of magnitude 1 : 1000 whose features compete for the refinement (longer history: <=12 refinements)."""
+    cfg = {"strategy": "dimwise", "a": [-1.0, 0.5], "b": [2.0, 1.5], "norm": 2, "lmax": 2, "grid": {"type": "GlobalTrapezoidal", "boundary": True},
+           "opts": {"use_volume_weighting": True}}
+    comps = [["gauss", [40.0, 40.0], [0.23, 0.71]], ["scale", 1000.0, ["gauss", [25.0, 25.0], [0.64, 0.3]]]]
+    return [(cfg, comps)]
 
 
 def anchor_cases():
@@ -228,18 +240,25 @@ def run(ctx):
         check_case(ctx, case)
     rounds = 0
     while True:
-        for cfg in gen_configs(ctx, 10 if quick else 40):
+        todo = ([(c, comps, 12) for c, comps in anchor_configs()] if rounds == 0 else []) + [(c, None, 7) for c in gen_configs(ctx, 10 if quick else 40)]
+        for cfg, fixed_comps, max_ref in todo:
             if ctx.out_of_time(0.85):
                 break
             rng = ctx.rng
-            comps = [dc.random_genz(rng, 2) for _ in range(1 if rng.random() < 0.6 else 2)]
+            if fixed_comps is not None:
+                comps = fixed_comps
+            elif cfg["opts"].get("use_volume_weighting"):
+                # quantities of interest of very different magnitude: the volume weights matter
+                comps = [dc.random_genz(rng, 2, "gauss"), ["scale", rng.choice([100.0, 1000.0]), dc.random_genz(rng, 2, "gauss")]]
+            else:
+                comps = [dc.random_genz(rng, 2) for _ in range(1 if rng.random() < 0.6 else 2)]
             ref = dc.gauss_reference(comps, np.array(cfg["a"]), np.array(cfg["b"]), n=16)
             use_ref = bool(np.all(np.abs(ref) > 1e-8))
             base = {"cfg": cfg, "comps": comps, "ref": [float(x) for x in ref] if use_ref else None}
             ctx.case(dict(base, kind="scout"), nontrivial=False)
             npts = None
             with ctx.guard("B.resume.result", S_CONT, cfg["strategy"] + "-raises"):
-                npts, errs = scout(base)
+                npts, errs = scout(base, max_ref)
             if not npts or len(npts) < 2:
                 continue
             k = len(npts) - 1
@@ -257,6 +276,16 @@ def run(ctx):
                         break
                     case = dict(base, kind="case", final=final, interrupt=itr, save=save, probe=probe, index=j)
                     ctx.case(case, nontrivial=last > 0)
+                    check_case(ctx, case)
+            # interruption at the LAST evaluation of the uninterrupted run: first limit smaller than the final one, but the refinement reached
+            # at the stop already exceeds the final limit -> the continuation has to stop where it is
+            if last > 0 and npts[last - 1] < npts[last] - 1 and max(npts[:last]) == npts[last - 1]:
+                itr = {"tol": -1.0, "max": npts[last - 1], "min": 1}
+                for save in (False, True):
+                    if ctx.out_of_time(0.92):
+                        break
+                    case = dict(base, kind="case", final=final, interrupt=itr, save=save, probe=probe, index=last)
+                    ctx.case(case, nontrivial=True)
                     check_case(ctx, case)
             # interruption and final stop decided by tolerances (needs a reference)
             if use_ref and k >= 2 and cfg["strategy"] == "dimwise" and not ctx.out_of_time(0.92):
